@@ -101,6 +101,14 @@ def build_calls(ctx: Ctx, n_docs: int):
         calls.append({"tool": "write", "args": {"target_path": f"w/edit{j}.oct.md", "changes": {"OWNER": {"$op": "DELETE"}, f"P{j}": 1}, "corrections_only": True}})
         calls.append({"tool": "write", "args": {"target_path": f"w/edit{j}.oct.md", "changes": {"NOTE": f"edited{j}"}}})
         calls.append({"direct": "emit", "text": base})
+    # a file with non-ASCII text edited under its base_hash (every read of the existing file must decode it the same way
+    # in every locale), then validated through file_path
+    ncanon = '===L===\nMETA:\n  TYPE::T\nOWNER::"zoë → ünï"\nNOTE::n\n===END===\n'
+    nh = __import__("hashlib").sha256(ncanon.encode("utf-8")).hexdigest()
+    calls.append({"tool": "write", "args": {"target_path": "w/loc.oct.md", "content": ncanon}})
+    calls.append({"tool": "write", "args": {"target_path": "w/loc.oct.md", "changes": {"NOTE": "édité"}, "base_hash": nh}})
+    calls.append({"tool": "validate", "args": {"file_path": "w/loc.oct.md", "schema": "META"}})
+    calls.append({"tool": "write", "args": {"target_path": "w/loc.oct.md"}})
     for j in range(3):
         for c in COLLIDE + [GEN_DET]:
             calls.append({"tool": "compile", "args": {"content": c, "format": "gbnf"}})
@@ -125,6 +133,8 @@ def configs(tier: str):
     out.append({**base, "mode": "gather"})
     for k in range(4):
         out.append({**base, "mode": "coldthreads", "sseed": 20 + k, "hashseed": ["0", "1", "random", "4242"][k]})
+    out.append({**base, "lang": "C", "utf8": "0"})
+    out.append({"hashseed": "1", "cwd": "B", "lang": "POSIX", "utf8": "0", "mode": "shuffled", "sseed": 9})
     out.append({**base, "mode": "threads", "sseed": 5})
     out.append({"hashseed": "random", "cwd": "B", "lang": "C", "mode": "threads", "sseed": 6})
     out.append({"hashseed": "random", "cwd": "B", "lang": "POSIX", "mode": "shuffled", "sseed": 3})
@@ -168,6 +178,8 @@ def run_workers(calls, cfgs, root, workers):
             env = {k: v for k, v in os.environ.items() if k not in ("LANG", "LC_ALL", "LC_CTYPE", "PYTHONHASHSEED")}
             env.update({"PYTHONHASHSEED": cfg["hashseed"], "LANG": cfg["lang"], "LC_ALL": cfg["lang"], "PYTHONPATH": f"{VERIF_HOME}:{os.path.join(VERIF_HOME, '.deps')}",
                         "PYTHONDONTWRITEBYTECODE": "1"})
+            if cfg.get("utf8") == "0":  # the interpreter's UTF-8 mode and locale coercion switched off: the locale's own (ASCII) encoding is the default
+                env.update({"PYTHONUTF8": "0", "PYTHONCOERCECLOCALE": "0"})
             out = os.path.join(root, f"out{i}.json")
             p = subprocess.Popen([sys.executable, "-m", "vf.det_worker", calls_path, out, cfg["mode"], str(cfg.get("sseed", 0))], cwd=wd, env=env,
                                  stdout=subprocess.DEVNULL, stderr=subprocess.PIPE, text=True)
@@ -239,7 +251,7 @@ def evaluate(ctx: Ctx, calls, cfgs) -> Stats:
         st.evaluations += len(calls)
         if i == 0:
             continue
-        dims = [k for k in ("hashseed", "cwd", "lang", "mode") if cfg[k] != cfgs[0][k]]
+        dims = [k for k in ("hashseed", "cwd", "lang", "mode", "utf8") if cfg.get(k) != cfgs[0].get(k)]
         for j, (a, b) in enumerate(zip(refs, r[1])):
             if a != b:
                 st.fail(f"C06:unlisted:{call_kind(calls[j])}:differs-under:{'+'.join(dims)}", {"call": calls[j], "config": cfg},
